@@ -19,7 +19,7 @@
     order and how often is modelled by hand and tied by the differential only; the result mapping is proved for the client half
     (C03_returns) and for errors (C03_errno_...). *)
 From Coq Require Import ZArith NArith String List Bool.
-From P9V Require Import gen.ConstGen gen.ClientGen Client.Chunk Client.ClientModel Client.ClientProofs Client.ChunkProofs Client.Errs Client.Composed Client.HandlerTie.
+From P9V Require Import gen.ConstGen gen.ClientGen Client.Chunk Client.ClientModel Client.ClientProofs Client.ChunkProofs Client.Errs Client.Composed Client.HandlerTie gen.ResultGen Client.Results.
 Import ListNotations.
 Open Scope string_scope.
 
@@ -42,7 +42,11 @@ Theorem C03_transparent_readdir : forall v e,
   (v <= 7)%N -> (11 <= e_msize e)%N -> backend_calls v "Readdir" e = expected v "Readdir" e.
 Proof. intros v e Hv. apply transparent_readdir. now apply versions_all. Qed.
 
-(** Walk: performed one component at a time on the server; an empty walk is one Walk(nil) *)
+(** Walk: performed one component at a time on the server; an empty walk is one Walk(nil).  NOTE: [expected "Walk"]
+    and the twalk entry of [handler_calls] are the same hand-written shape (one WalkGetAttr per component, each on
+    "the file reached so far", written as the receiver): this theorem only says that the CLIENT hands the names over
+    unchanged in one Twalk; that the server walks component by component on the right files is tied by
+    C03_walk_handlers_events (vocabulary) and the differential (order, targets of the first component, results). *)
 Theorem C03_transparent_walk : forall v e,
   (v <= 7)%N -> backend_calls v "Walk" e = expected v "Walk" e.
 Proof. intros v e Hv. apply transparent_walk. now apply versions_all. Qed.
@@ -85,8 +89,10 @@ Theorem C03_errno_cases : forall n p,
   extract (Wrap (Join [Opaque; OsExist; LinuxErrno n])) = n.
 Proof. intros n p. repeat split. Qed.
 
-(** the client maps Rlerror{n} to linux.Errno(n): errno in, same errno out *)
-Theorem C03_errno_roundtrip : forall n, extract (client_error n) = n.
+(** BY DEFINITION of the model ([client_error n := LinuxErrno n] restates sendRecv's `linux.Errno(rlerr.Error)`; newErr,
+    the Rlerror codec and sendRecv are not derived from the source): errno in, same errno out.  Tested, not tied:
+    every failing case of the differential checks the errno the caller gets against [extract] of the backend's error. *)
+Theorem C03_errno_roundtrip_by_definition : forall n, extract (client_error n) = n.
 Proof. reflexivity. Qed.
 
 (** SetXattr and RemoveXattr fail locally with ENOSYS; no message *)
@@ -197,3 +203,22 @@ Theorem C03_walk_handlers_events :
   with_prefix "lookup:" (events "twalkgetattr.handle") = ["_v0.fid=>_v2"] /\
   with_prefix "lookup:" (events "txattrwalk.handle") = ["_v0.fid=>_v2"].
 Proof. exact walk_handlers_events. Qed.
+
+(** ---- the result half: values unchanged ---- *)
+
+(** the table of reply-field sources extracted from handlers.go is the reviewed one (a reply built from anything
+    but the backend's results, e.g. Valid: AttrMaskAll in Rwalkgetattr, makes this obligation fail) *)
+Theorem C03_reply_sources : ResultGen.reply_sources = reply_sources_spec.
+Proof. exact reply_sources_generated. Qed.
+
+(** at every version, for every method with result values: the i-th value the client method returns is the reply
+    field the handler filled with the i-th result of the corresponding backend method (for Create the results after
+    the File; for Walk/WalkGetAttr the QIDs, mask and attributes doWalk assembled) — composition = identity *)
+Theorem C03_results_identity : forall v, (v <= 7)%N -> forallb (results_identity_at v) backend_results = true.
+Proof. intros v Hv. apply results_identity. now apply versions_all. Qed.
+Print Assumptions C03_results_identity.
+
+Theorem C03_no_value_replies :
+  forallb (fun t => match reply_entry t with [("type", _)] => true | _ => false end)
+          ["tfsync"; "tlink"; "trename"; "trenameat"; "tsetattr"; "tunlinkat"; "tremove"; "tclunk"] = true.
+Proof. exact no_value_replies. Qed.
